@@ -120,7 +120,7 @@ def run(ctx):
     fails = ctx.prop('prop:combinators', vectors, p_vector)
 
     # the operator table around each required version
-    reqs = list(_ver.BOUNDARY) + [v for v in (V.version(rng) for _ in range(ctx.n(40, 400))) if _ver.valid(v)]
+    reqs = list(_ver.BOUNDARY) + ['1.0A', '1.0a', '2.1RC1', '2.1rc1', '1.0Z', '1.0z-1', '1aB', '1Ab'] + [v for v in (V.version(rng) for _ in range(ctx.n(40, 400))) if _ver.valid(v)]
     triples = []
     for b in reqs:
         near = [x for x in V.variants(rng, b) if _ver.valid(x)] + [rng.choice(reqs), rng.choice(reqs)]
